@@ -337,6 +337,9 @@ def run(tier, seed, replay=None):
                "...", ".a", "~/", "./", "../", "..a", "a..", "~/..", "/.."]
         seqs = [list(t) for n in (0, 1, 2) for t in itertools.product(TOK, repeat=n)]
         seqs += [list(t) for t in itertools.product(TOK, repeat=3)][::(23 if quick else 1)]
+        # longer lists: every token of the alphabet at every position 0..8 among neutral words, and random lists
+        seqs += [["w%d" % j if j != pos else t for j in range(n)] for t in TOK for n in (4, 6, 9) for pos in range(n)]
+        seqs += [[rng.choice(TOK) for _ in range(rng.randint(4, 10))] for _ in range(200 if quick else 3000)]
         SEPS = [" ", " ", " ", "  ", "\t", " \x0b", "\u00a0", "\x1f ", "\u2003"]
         for si, ws in enumerate(seqs):
             real = rc.guarded(lambda: C._normalize_words(list(ws), cwdp))
@@ -508,12 +511,16 @@ def run(tier, seed, replay=None):
         n_spell = 0
         DECS = rc.VERDICTS
 
-        def emit(rule, tpl, ps, qs, same, i, tail=None, mode=None):
+        def emit(rule, tpl, ps, qs, same, i, tail=None, mode=None, cwd_=None):
             nonlocal n_spell
             mode = (i // 3) % 4 if mode is None else mode     # 0: plain prefix rule, 1: anchored, 2: trailing ' *', 3: plain + extra word
             case = {"rule": rule, "dec": DECS[i % 3], "exact": mode == 1, "star": mode == 2, "msg": i % 2 == 0, "tpl": tpl,
                     "extra": 1 if (mode == 3 or (i // 12) % 2) and not tail else 0, "p": [U(x) for x in ps], "q": [U(x) for x in qs],
                     "same": same, "tail": tail}
+            if cwd_:
+                case["cwd"] = U(cwd_)
+            if i % 7 == 3 and rule in ("command", "after"):
+                case["sep"] = ("  ", "\t", " \t ")[(i // 7) % 3]
             spell_case(case)
             out.case(case, nontrivial=True)
             n_spell += 1
@@ -535,19 +542,29 @@ def run(tier, seed, replay=None):
                     emit("redirect", None, [pspell], [qspell], True, i)
                     i += 1
             # every member of the full family on either side, partners rotated: other positions of the pattern, alias, after
-            for tpl in ("name", "arg2", "mid"):
-                for pspell, qspell in spell.rotations(wfam, wfam, 2):
+            # the undecorated forms (., .., ~, ./x, ../x, x/y, /abs, ~/x, CWD/../x ...): pattern form x command form x position x rule kind
+            plain = [x for x in wfam if "+" not in x.how]
+            for pspell in plain:
+                for qspell in plain:
+                    for tpl in spell.POSITIONS:
+                        emit("command", tpl, [pspell], [qspell], True, i)
+                        emit("after", tpl, [pspell], [qspell], True, i + 1)
+                        i += 2
+                    emit("alias", "name", [pspell], [qspell], True, i)
+                    i += 1
+            for tpl in spell.POSITIONS[1:]:
+                for pspell, qspell in spell.rotations(wfam, wfam, 2 if tpl in ("name", "arg2", "mid") else 1):
                     emit("command", tpl, [pspell], [qspell], True, i)
                     i += 1
             for pspell, qspell in spell.rotations(wfam, wfam, 2):
                 emit("alias", "name", [pspell], [qspell], True, i)
-                emit("after", ("arg1", "name", "mid")[i % 3], [pspell], [qspell], True, i + 1)
+                emit("after", spell.POSITIONS[i % len(spell.POSITIONS)], [pspell], [qspell], True, i + 1)
                 i += 2
             for pspell, qspell in spell.rotations(fam, fam, 2):
                 emit("redirect", None, [pspell], [qspell], True, i)
                 i += 1
             for pspell in wfam:     # the pattern is the command's own text
-                emit("command", ("arg1", "name", "arg2", "mid")[i % 4], [pspell], [pspell], True, i)
+                emit("command", spell.POSITIONS[i % len(spell.POSITIONS)], [pspell], [pspell], True, i)
                 i += 1
         # two path words in one pattern
         for fi, (name, pth, fkind) in enumerate(files):
@@ -578,6 +595,28 @@ def run(tier, seed, replay=None):
                     emit("redirect", None, [dsp], [qspell], True, k + j, tail=tail, mode=0)
                     if spell.pathword(qspell):
                         emit(("command", "after")[(k + j) % 2], ("arg1", "arg2", "mid")[k % 3], [dsp], [qspell], True, k + j, tail=tail, mode=0)
+        # ** patterns of redirect rules: the directory respelled; targets below it and next to it, respelled
+        outside_of = {"cwd": "outside", "dir": "topfile", "homedir": "home", "parent": "grandparent", "grandparent": "sysfile", "home": "cwd"}
+        for dn, fn in inside.items():
+            D = fams[dn]
+            F = spell.capped(fams[fn], 10, 5)
+            O = spell.capped(fams[outside_of[dn]], 10, 7)
+            base = os.path.basename(dict((n, pth) for n, pth, _ in files)[fn])
+            for k, dsp in enumerate(D):
+                tails = ["**", "**/*", "**/" + base]
+                emit("redirect", None, [dsp], [F[(k * 3) % len(F)]], True, k, tail=tails[k % 3], mode=0)
+                emit("redirect", None, [dsp], [O[(k * 3 + 1) % len(O)]], False, k + 1, tail=tails[(k + 1) % 3], mode=0)
+        # other working directories: the root, the home directory, the parent, a directory reached through a symbolic link
+        for ci, cwd2 in enumerate(["/", sc.home, os.path.dirname(sc.cwd), sc.root + "/w/links/toout", sc.cwd + "/src"]):
+            real_cwd2 = os.path.realpath(cwd2)
+            for fi, (name, pth, fkind) in enumerate(files):
+                fam2 = spell.family(pth, real_cwd2, sc.home, (), 1)
+                if not quick or (fi + ci) % 2 == 0:
+                    w2 = [x for x in fam2 if spell.pathword(x)]
+                    for k, (pspell, qspell) in enumerate(spell.rotations(w2, w2, 1 if quick else 3)):
+                        emit(("command", "after", "alias")[k % 3], ("arg1", "name", "mid", "arg2")[k % 4], [pspell], [qspell], True, k + fi, cwd_=cwd2)
+                    for k, (pspell, qspell) in enumerate(spell.rotations(fam2, fam2, 1 if quick else 3)):
+                        emit("redirect", None, [pspell], [qspell], True, k + fi, cwd_=cwd2)
         out.extra["spelling_cases"] = n_spell
 
         n, mism = core.coq_crosscheck("C09", xcheck)
